@@ -335,35 +335,40 @@ class Rig:
         class Target(object):
             def __init__(self):
                 self.log = collections.Counter()
+                self.nlog = 0               # total number of executions (all tokens)
                 self.cur = None
                 self.gens = {}
 
+            def _hit(self, key):
+                self.log[key] += 1
+                self.nlog += 1
+
             def run(self, tok, i=0):
-                self.log[(tok, i)] += 1
+                self._hit((tok, i))
                 return ["val", tok, i]
 
             def boom(self, tok):
-                self.log[(tok, 0)] += 1
+                self._hit((tok, 0))
                 raise ValueError("boom", tok)
 
             def strm(self, tok):
-                self.log[(tok, 0)] += 1
+                self._hit((tok, 0))
                 g = iter([["first", tok]])
                 self.gens[tok] = g
                 return g
 
             @server.oneway
             def ow(self, tok):
-                self.log[(tok, 0)] += 1
+                self._hit((tok, 0))
 
             @property
             def attr(self):
-                self.log[(self.cur, 0)] += 1
+                self._hit((self.cur, 0))
                 return ["attr", self.cur]
 
             @attr.setter
             def attr(self, v):
-                self.log[(v, 0)] += 1
+                self._hit((v, 0))
 
         self.target = Target()
         self.daemon = server.Daemon(unixsocket=os.path.join(self.tmp, "sock"))
@@ -411,22 +416,28 @@ class Rig:
             shutil.rmtree(self.tmp, ignore_errors=True)
 
     # ---------------------------------------------------------------------------------------------
-    def history(self, retries, seq0, calls, script, stop_on_end=True):
-        """run one history; returns (records, net).  record = dict(out, delta, state, seq, connects, consumed, unread, ...)"""
+    def history(self, retries, seq0, calls, script, stop_on_end=True, gretries=None, raw=False):
+        """run one history; returns (records, net).  record = dict(out, delta, state, seq, connects, consumed, unread, ...)
+        retries  = the proxy's own _pyroMaxRetries;  gretries = config.MAX_RETRIES (default: the same value);
+        raw      = the proxy runs in wire-level response mode (_pyroRawWireResponse, as the HTTP gateway does);
+        one BatchProxy object is re-used for all batches of the history (a new one after a failed submit)."""
         errors, client = self.errors, self.client
         t = self.target
-        t.log, t.cur, t.gens = collections.Counter(), None, {}
+        t.log, t.nlog, t.cur, t.gens = collections.Counter(), 0, None, {}
         self.daemon.streaming_responses.clear()
         net = self.net = Net(self, script)
-        self.config.MAX_RETRIES = retries
+        self.config.MAX_RETRIES = retries if gretries is None else gretries
         proxy = client.Proxy("PYRO:target@fakehost:4321")
+        proxy._pyroMaxRetries = retries
+        proxy._pyroRawWireResponse = bool(raw)
         proxy._pyroSeq = seq0 % 65536
+        self.batch = None
         net.sends = 0
         sid = "c03-feed"
 
         def feed():
             while True:
-                t.log[(t.cur, 0)] += 1
+                t._hit((t.cur, 0))
                 yield ["item", t.cur]
         self.daemon.streaming_responses[sid] = (None, time.time(), 0, feed())
         fetcher = client._StreamResultIterator(sid, proxy)
@@ -438,6 +449,9 @@ class Rig:
                 book = net.book()
                 t.cur = tok
                 before = t.log[(tok, 0)]
+                own_keys = [(tok, i) for i in range(BATCH)] if kind in "bB" else [(tok, 0)]
+                own_before = sum(t.log[k] for k in own_keys)
+                total_before = t.nlog
                 pos0 = net.pos
                 value = exc = None
                 try:
@@ -473,6 +487,7 @@ class Rig:
                        "connects": net.connects, "consumed": net.pos - pos0, "unread": unread,
                        "events": list(book["events"]), "processed": book["processed"],
                        "msgs": list(book["consumed"]), "sends": net.sends,
+                       "foreign_execs": (t.nlog - total_before) - (sum(t.log[k] for k in own_keys) - own_before),
                        "subcounts": sorted(set(t.log[(tok, i)] for i in range(BATCH)) if kind in "bB" else [])}
                 recs.append(rec)
                 if tag in ("end", "stuck") and stop_on_end:
@@ -486,12 +501,27 @@ class Rig:
             self.net = None
         return recs, net
 
+    def _decode(self, r):
+        """wire-level response mode: the proxy hands back the received message; decode it as the proxy would have"""
+        protocol = self.protocol
+        if not isinstance(r, protocol.ReceivingMessage):
+            return r
+        from Pyro5 import serializers
+        data = serializers.serializers_by_id[r.serializer_id].loads(r.data)
+        if r.flags & protocol.FLAGS_ITEMSTREAMRESULT:
+            sid = bytes(r.annotations.get("STRM", b"")).decode()
+            g = self.daemon.streaming_responses.pop(sid, (None, 0, 0, None))[3]
+            return ("stream", [k for k, v in self.target.gens.items() if v is g])
+        if r.flags & protocol.FLAGS_EXCEPTION:
+            raise data
+        return data
+
     def _do(self, proxy, fetcher, kind, tok):
         client = self.client
         if kind == "n":
-            return proxy.run(tok)
+            return self._decode(proxy.run(tok))
         if kind == "x":
-            return proxy.boom(tok)
+            return self._decode(proxy.boom(tok))
         if kind == "s":
             it = proxy.strm(tok)
             if isinstance(it, client._StreamResultIterator):
@@ -499,22 +529,34 @@ class Rig:
                 it.proxy = None          # no close_stream call when the iterator is collected
                 g = self.daemon.streaming_responses.pop(sid, (None, 0, 0, None))[3]
                 return ("stream", [k for k, v in self.target.gens.items() if v is g])
-            return it
+            return self._decode(it)
         if kind == "o":
-            return proxy.ow(tok)
+            return self._decode(proxy.ow(tok))
         if kind in "bB":
-            b = client.BatchProxy(proxy)
+            # one BatchProxy object serves every batch of the history (its call list is cleared by each submit);
+            # after a submit that raised the calls stay queued by design, so a new object is taken then
+            b = self.batch
+            if b is None:
+                b = self.batch = client.BatchProxy(proxy)
             for i in range(BATCH):
                 b.run(tok, i)
-            r = b(oneway=(kind == "B"))
-            return None if r is None else list(r)
+            try:
+                if proxy._pyroRawWireResponse and kind == "b":
+                    r = proxy._pyroInvokeBatch(list(b._BatchProxy__calls))      # the result generator cannot iterate a raw message
+                    b._BatchProxy__calls = []
+                    return self._decode(r)
+                r = b(oneway=(kind == "B"))
+                return None if r is None else list(r)
+            except BaseException:
+                self.batch = None
+                raise
         if kind == "g":
-            return proxy.attr
+            return self._decode(proxy.attr)
         if kind == "t":
             proxy.attr = tok
             return None
         if kind == "f":
-            return next(fetcher)
+            return self._decode(next(fetcher))
         raise AssertionError(kind)
 
 
